@@ -188,7 +188,7 @@ def run_job(pid, job, acc):
     if k == "bulk_sweep":
         return run_bulk_sweep(pid, job, acc)
     s = job["seed"]
-    hist = generate(s, style=("life" if job.get("life") else None), **GEN)
+    hist = generate(s, style=("life" if job.get("life") else None), **dict(GEN, jumps=bool(job.get("life") and s % 5 == 2)))
     cfg = cfg_for(s)
     pre = None
     if k in ("faulty", "locked"):
